@@ -363,6 +363,10 @@ fn dump(w: &mut World) -> Dump {
         }
     }
     o2s.sort();
+    // pool order, not uuid order (real login session ids are random)
+    seen.uats.sort();
+    seen.live_uats.sort_by_key(|x| x.0);
+    seen.o2s.sort_by_key(|x| x.0);
     let mut apis: Vec<u64> = e.get_ava_as_apitoken_map(Attribute::ApiTokenSession).map(|m| m.keys().copied().collect::<Vec<_>>()).unwrap_or_default().iter().map(|u| w.id(u)).collect();
     apis.sort();
     let prim = w.oid(&primary);
@@ -541,7 +545,9 @@ fn history(rt: &tokio::runtime::Runtime, idms: &IdmServer, delayed: &mut IdmServ
             };
             let sess_cred = |rng: &mut Rng, seen: &Seen| -> Uuid {
                 // mostly a credential that is on the account right now
-                let on: Vec<Uuid> = seen.creds.iter().copied().collect();
+                // (ordered by interned id: credential uuids are random, the case text must not depend on them)
+                let mut on: Vec<Uuid> = seen.creds.iter().copied().collect();
+                on.sort_by_key(|u| w.ids.get(u).unwrap_or(u64::MAX));
                 if !on.is_empty() && rng.chance(3, 4) {
                     *rng.pick(&on)
                 } else if rng.chance(1, 6) {
